@@ -425,7 +425,11 @@ func (e *Engine) intrinsic(c *ctx, x *ssa.Call, idx int, name string, args []Val
 		n := e.intArg(c, args[0])
 		cells := make([]Value, n)
 		for i := 0; i < n; i++ {
-			cells[i] = e.getVar(fmt.Sprintf("b%d", st.nBytes), 8, "byte")
+			if e.conc != nil {
+				cells[i] = Int(uint64(vecAt(e.conc.Bytes, st.nBytes) & 0xff))
+			} else {
+				cells[i] = e.getVar(fmt.Sprintf("b%d", st.nBytes), 8, "byte")
+			}
 			st.nBytes++
 		}
 		id := st.heap.Alloc(cells, nil, "vBytes", false)
@@ -433,29 +437,61 @@ func (e *Engine) intrinsic(c *ctx, x *ssa.Call, idx int, name string, args []Val
 		e.set(c, x, Slice{Obj: id, Len: int32(n), Cap: int32(n), ESz: 1})
 		return stepNext, true
 	case "vByte":
-		e.set(c, x, e.getVar(fmt.Sprintf("b%d", st.nBytes), 8, "byte"))
+		if e.conc != nil {
+			e.set(c, x, Int(uint64(vecAt(e.conc.Bytes, st.nBytes)&0xff)))
+		} else {
+			e.set(c, x, e.getVar(fmt.Sprintf("b%d", st.nBytes), 8, "byte"))
+		}
 		st.nBytes++
 		return stepNext, true
 	case "vBool":
-		e.set(c, x, e.getVar(fmt.Sprintf("s%d", st.nBool), 0, "bool"))
+		if e.conc != nil {
+			e.set(c, x, boolInt(vecAt(e.conc.Bools, st.nBool) != 0))
+		} else {
+			e.set(c, x, e.getVar(fmt.Sprintf("s%d", st.nBool), 0, "bool"))
+		}
 		st.nBool++
 		return stepNext, true
 	case "vU8":
-		e.set(c, x, e.getVar(fmt.Sprintf("f%d", st.nU8), 8, "u8"))
+		if e.conc != nil {
+			e.set(c, x, Int(uint64(vecAt(e.conc.U8, st.nU8)&0xff)))
+		} else {
+			e.set(c, x, e.getVar(fmt.Sprintf("f%d", st.nU8), 8, "u8"))
+		}
 		st.nU8++
 		return stepNext, true
 	case "vU16":
-		e.set(c, x, e.getVar(fmt.Sprintf("h%d", st.nU16), 16, "u16"))
+		if e.conc != nil {
+			e.set(c, x, Int(uint64(vecAt(e.conc.U16, st.nU16)&0xffff)))
+		} else {
+			e.set(c, x, e.getVar(fmt.Sprintf("h%d", st.nU16), 16, "u16"))
+		}
 		st.nU16++
 		return stepNext, true
 	case "vU32":
-		e.set(c, x, e.getVar(fmt.Sprintf("w%d", st.nU32), 32, "u32"))
+		if e.conc != nil {
+			e.set(c, x, Int(uint64(vecAt(e.conc.U32, st.nU32))&0xffffffff))
+		} else {
+			e.set(c, x, e.getVar(fmt.Sprintf("w%d", st.nU32), 32, "u32"))
+		}
 		st.nU32++
 		return stepNext, true
 	case "vChoice":
 		n := e.intArg(c, args[0])
 		if n <= 0 {
 			return stepStop, true
+		}
+		if e.conc != nil {
+			v := vecAt(e.conc.Choices, st.nChoice)
+			st.nChoice++
+			if v >= n {
+				v = n - 1
+			}
+			if v < 0 {
+				v = 0
+			}
+			e.set(c, x, Int(uint64(v)))
+			return stepNext, true
 		}
 		sel := e.getVar(fmt.Sprintf("c%d", st.nChoice), 8, "choice")
 		st.nChoice++
@@ -514,7 +550,11 @@ func (e *Engine) intrinsic(c *ctx, x *ssa.Call, idx int, name string, args []Val
 		}
 		as.States++
 		// observable for trace validation
-		e.obs = append(e.obs, ObsEntry{Seq: st.nObs, Snap: st.snap(), Name: "assert:" + id, Val: condV, W: 0})
+		if e.conc != nil {
+			if ci, ok := condV.(Int); ok {
+				e.clog = append(e.clog, fmt.Sprintf("assert:%s=%d", id, ci))
+			}
+		}
 		st.nObs++
 		switch cv := condV.(type) {
 		case Int:
@@ -544,8 +584,11 @@ func (e *Engine) intrinsic(c *ctx, x *ssa.Call, idx int, name string, args []Val
 		return stepNext, true
 	case "vObs":
 		nm := e.strArg(args[0])
-		w := termW(x.Call.Args[1].Type())
-		e.obs = append(e.obs, ObsEntry{Seq: st.nObs, Snap: st.snap(), Name: nm, Val: args[1], W: w})
+		if e.conc != nil {
+			if ci, ok := args[1].(Int); ok {
+				e.clog = append(e.clog, fmt.Sprintf("%s=%d", nm, int64(ci)))
+			}
+		}
 		st.nObs++
 		e.set(c, x, nil)
 		return stepNext, true
@@ -575,9 +618,31 @@ func (e *Engine) intrinsic(c *ctx, x *ssa.Call, idx int, name string, args []Val
 			e.set(c, x, r)
 		}
 		return stepNext, true
+	case "vPad":
+		k := e.intArg(c, args[0])
+		junk, text := args[1].(Slice), args[2].(Slice)
+		jc, tc := e.sliceCells(st, junk), e.sliceCells(st, text)
+		j := min(len(jc), k)
+		cells := make([]Value, 0, k+len(tc))
+		for i := 0; i < k-j; i++ {
+			cells = append(cells, Int(0xAA))
+		}
+		cells = append(cells, jc[len(jc)-j:]...)
+		cells = append(cells, tc...)
+		id := st.heap.Alloc(cells, nil, "vPad", false)
+		st.allocLog = append(st.allocLog, id)
+		e.set(c, x, Slice{Obj: id, Len: int32(len(cells)), Cap: int32(len(cells)), ESz: 1})
+		return stepNext, true
 	case "vBytesEq":
 		// symbolic equality of two byte slices (lengths concrete)
 		return e.modelBytesEqual(c, x, args), true
 	}
 	return 0, false
+}
+
+func vecAt(v []int, i int) int {
+	if i < len(v) {
+		return v[i]
+	}
+	return 0
 }
